@@ -177,12 +177,19 @@ func genEng(cliTier bool) func(t *rapid.T) EngCase {
 			}
 			switch rapid.IntRange(0, 2).Draw(t, "what") {
 			case 0:
-				c.Patterns = []Pattern{{genPart(t, tnames, []string{"table"})}}
-				c.Patterns[0][0].Types = nil
+				// one to three patterns: a resource may be matched by a later pattern of the list only
+				for n := rapid.IntRange(1, 3).Draw(t, "npat"); n > 0; n-- {
+					p := Pattern{genPart(t, tnames, []string{"table"})}
+					p[0].Types = nil
+					c.Patterns = append(c.Patterns, p)
+				}
 			case 1:
 				c.Skip = []string{rapid.SampledFrom([]string{"drop_table", "drop_index", "add_table", "drop_column"}).Draw(t, "skip")}
 			default:
 				c.Patterns = []Pattern{{{Glob: rapid.SampledFrom(tnames).Draw(t, "extable")}}}
+				if rapid.Bool().Draw(t, "two") {
+					c.Patterns = append(c.Patterns, Pattern{{Glob: rapid.SampledFrom(tnames).Draw(t, "extable2")}})
+				}
 				c.Skip = []string{rapid.SampledFrom([]string{"drop_table", "drop_index", "add_table"}).Draw(t, "skip")}
 			}
 			// make sure the desired state asks for a change of the skipped kind (otherwise the policy has nothing to stop)
